@@ -403,12 +403,8 @@ Proof.
   induction ps as [|[[k m] sub] r IH].
   - simpl. destruct (encode_fields E kv qs); reflexivity.
   - cbn [app encode_fields]. fold (encode_fields E kv). rewrite IH. unfold ebind.
-    destruct (match lookup k kv with
-              | Some x => match E sub x with
-                          | EErr EKey => match p_default m with Some d => E sub d | None => EErr EKey end
-                          | r0 => r0 end
-              | None => match p_default m with Some d => E sub d | None => EErr EKey end
-              end); auto.
+    match goal with |- context [lookup k kv] => idtac end.
+    set (X := match lookup k kv with Some x => _ | None => _ end). destruct X; auto.
     destruct (encode_fields E kv r); auto.
     destruct (encode_fields E kv qs); auto. rewrite app_assoc. reflexivity.
 Qed.
